@@ -534,7 +534,28 @@ impl ChecksumServiceContext {
 
     /// `None` for a name that is not registered.
     pub fn get(&self, name: &str) -> Option<&dyn ChecksumService> {
+        if DISABLED.lock().map(|d| d.iter().any(|n| n == name)).unwrap_or(false) {
+            return None;
+        }
         self.services.get(name).map(|b| b.as_ref())
+    }
+}
+
+static DISABLED: std::sync::Mutex<Vec<String>> = std::sync::Mutex::new(Vec::new());
+
+/// The application removes the service registered under `name` (driver command UNREG).
+pub fn checksum_unregister(name: &str) {
+    if let Ok(mut d) = DISABLED.lock() {
+        if !d.iter().any(|n| n == name) {
+            d.push(name.to_string());
+        }
+    }
+}
+
+/// Undoes `checksum_unregister` (driver command REG).
+pub fn checksum_restore(name: &str) {
+    if let Ok(mut d) = DISABLED.lock() {
+        d.retain(|n| n != name);
     }
 }
 
